@@ -20,6 +20,7 @@ def run(rep):
     rep.guard(k5, rep, w)
     rep.guard(k6, rep, w)
     rep.guard(k7, rep, w)
+    rep.guard(k8, rep, w)
     import c06
     rep.guard(c06.s12, rep, w, 'C07')   # a class declared in a block is a captured local of its methods: leaving the block has to close it, not the variable next to it
     import c04
@@ -509,7 +510,7 @@ def k7(rep, w):
     """`x.f(a)` on a function kept in a field is `(x.f)(a)`: the value being called sits in the callee slot of the new frame (slot zero: where a
     plain function finds itself, and what a bound method's receiver replaces). call_value(v, n) is therefore only ever given the value that
     slot n holds - read from it with peek(n), or written to it with poke(n, v) beforehand."""
-    r = rep.rule('K7', 'call_value(v, n) is given the value in slot n: read with peek(n) or stored there with poke(n, v) first', floor=4)
+    r = rep.rule('K7', 'call_value(v, n) is given the value in slot n: read with peek(n) or stored there with poke(n, v) first', floor=2)
     VMP = 'yarel::vm::Vm::'
     for f in sorted(w.yarel.fns.values(), key=lambda x: x.path):
         sites = [(bi, t) for bi, t in f.calls() if callee_name(t) == VMP + 'call_value' and len(t['args']) >= 3]
@@ -548,3 +549,43 @@ def k7(rep, w):
             r.check(ok, '%s / call_value at site %d' % (f.path, sites.index((bi, t))),
                     'call_value is handed a value that is neither read from the callee slot nor stored there first: the new frame\'s slot zero holds something else '
                     '(the receiver `x` of `x.f(a)`), which a function that refers to itself - or any code reading slot zero - then takes for the callee', f.loc(t.get('sp')))
+
+
+def k8(rep, w):
+    """a field that holds nil is a field: `obj.m = nil; obj.m()` calls nil (TypeError), it does not fall through to the class's method m, and
+    reading it gives nil rather than the bound method. Whether an instance / module has an attribute is therefore the answer of the table
+    look-up (the Option that HashMap::get returns), never a property of the value found: a look-up in `fields` / `attributes` whose result is
+    collapsed with unwrap_or_default / unwrap_or(nil) makes "absent" and "nil" the same thing for whoever tests the value afterwards."""
+    r = rep.rule('K8', 'an attribute-table look-up keeps "absent" apart from "nil": its Option is not collapsed into a default value', floor=2)
+    n = 0
+    for f in sorted(w.yarel.fns.values(), key=lambda x: x.path):
+        gets = [(bi, t) for bi, t in f.calls() if strip_generics(callee_name(t) or '') in ('std::collections::HashMap::get', 'std::collections::HashMap::get_mut') and t['args']]
+        if not gets:
+            continue
+        # only where the answer decides between the receiver's own attribute and its class (property access, invocation): code that goes on to
+        # the class's methods when the attribute is "not there"
+        if not any((callee_name(t) or '').rsplit('::', 1)[-1] in ('invoke_from_class', 'bind_method', 'get_class', 'find_method') for _, t in f.calls()):
+            continue
+        org = origins(f)
+        for bi, t in gets:
+            pl = op_place(t['args'][0])
+            flds = set()
+            if pl is not None:
+                flds |= {e.get('n') for e in pl.get('p', []) if isinstance(e, dict) and 'n' in e}
+                for q in org.get(pl['l'], ()):
+                    flds |= {x for x in q[1:] if not x.startswith('@')}
+            if not (flds & {'fields', 'attributes'}):
+                continue
+            n += 1
+            bad = []
+            for bj, t2 in f.calls():
+                tail = strip_generics(callee_name(t2) or '').rsplit('::', 1)[-1]
+                if tail in ('unwrap_or_default', 'unwrap_or', 'unwrap_or_else') and t2['args']:
+                    p2 = op_place(t2['args'][0])
+                    if p2 is not None and any(q[0][0] == 'call' and q[0][1] == bi for q in org.get(p2['l'], ())):
+                        bad.append(tail)
+            r.check(not bad, '%s / look-up in %s keeps its Option' % (f.path.replace('yarel::', ''), sorted(flds & {'fields', 'attributes'})[0]),
+                    '%s looks an attribute up and replaces "not there" by a default value (%s): a field that holds nil is then taken for a missing one, and the class\'s method is '
+                    'used in its place' % (f.path, ', '.join(sorted(set(bad)))), f.loc(t.get('sp')))
+    if n < 2:
+        raise Broken('C07', 'floor', 'K8: only %d attribute-table look-ups found in code that falls back to the class' % n)
